@@ -462,7 +462,7 @@ Proof.
     destruct (pdelete_cnt _ _ _ Hp El) as [Hs _]. specialize (Hs s).
     unfold phi, held; simpl. rewrite !cntz_app. lia.
   - cbn [fst]. lia.
-  - cbn [fst]. lia.
+  - cbn [fst]. unfold phi, held; simpl. lia.
 Qed.
 
 (* ------------------------------------------------------------------------- *)
